@@ -17,6 +17,7 @@
 -/
 import PigeonVerif.Properties.C19
 import PigeonVerif.Proofs.WFTerm
+import PigeonVerif.Properties.C06
 
 namespace PV
 namespace Mid
@@ -140,6 +141,16 @@ theorem C07_every_expression_terminates (E : Env) (rn : String → Bool) (rank :
 theorem C07_checked_grammars_terminate (E : Env) (nl : List String) (rk : List (String × Nat))
     (hc : checkWFG E nl rk = true) : ∃ f, parse E f ≠ .oof :=
   wf_parse_terminates (checkWFG_sound hc)
+
+/-- ... and with `Memoize(true)` as well, for the grammars the memo-soundness theorem covers (label-free pure blocks, unique
+    node identifiers): the memoized parser returns wherever the plain one does (`C06_memoized_terminates_if_plain_does_partial`) -/
+theorem C07_terminates_with_memoize_partial (E : Env) (own : Nat → Option String) (node : Nat → Option Expr)
+    (isPred : Nat → Bool) (hc : MemoCfg E) (hp : PureCode E isPred)
+    (hG : ∀ n r, E.findRule n = some r → r.expr.Ok own node isPred n)
+    (rn : String → Bool) (rank : String → Nat) (h : WFG (setMemo E false) rn rank) :
+    ∃ f, parse (setMemo E true) f ≠ .oof := by
+  obtain ⟨f, hf⟩ := wf_parse_terminates h
+  exact ⟨f, C06_memoized_terminates_if_plain_does_partial E own node isPred hc hp hG f hf⟩
 
 /-- a rule that can reach ITSELF at the same position has no ranking: the hypothesis excludes exactly the grammars C07
     wants rejected -/
